@@ -11,7 +11,7 @@
 From Common Require Import Bytes.
 From Trie Require Import Nibbles Node Encode Model Spec.
 From C10 Require Import ScaleCompact.
-From C10 Require Import Model Proofs.
+From C10 Require Import Model Proofs ProofsSpec.
 Local Open Scope N_scope.
 
 (* FULL STATEMENT: forall H version data, host_root H version data = spec_host_root H version data
@@ -50,7 +50,8 @@ Proof.
 Qed.
 Print Assumptions C10_overrun_refuted.
 
-(* every entry list is decodable from its SCALE encoding (whatever follows it), so the functions
+(* every entry list (lengths < 2^32, the range of a SCALE Vec length) is decodable from its SCALE
+   encoding (whatever follows it), so the functions
    return the spec root for every entry list, with duplicates and empty values *)
 Theorem C10_total_on_encodings : forall H ver es vs r,
   small es -> Forall (fun e => small (fst e) /\ small (snd e)) es ->
@@ -79,4 +80,54 @@ Example C10_nonvacuous :
   guard_entries_overrun (removelast (removelast (enc_entries es))) = false /\
   parse_version 2 = None /\ parse_version 1 = Some V1 /\
   fst (nth 64 (index_entries 0 (repeat [n2b 7] 70)) ([], [])) = [n2b 1; n2b 1].
+Proof. vm_compute. repeat split; reflexivity. Qed.
+
+(* ================================================================== audit round (aud-rpc-host) *)
+
+(* What the specification side denotes.  bm_of_list es is the sorted finite map in which every key has
+   the LAST value the entry list gives it (duplicates: later entries win; empty values are kept): *)
+Theorem C10_map_semantics : forall es,
+  (forall k, bm_get (bm_of_list es) k = last_value es k) /\ bm_sorted (bm_of_list es) = true.
+Proof. intros es. split; [exact (bm_of_list_get es)|exact (bm_of_list_sorted es)]. Qed.
+Print Assumptions C10_map_semantics.
+
+(* the ordered root keys the i-th value by the compact encoding of i, and these keys are pairwise
+   distinct (so the map has exactly one entry per value) *)
+Theorem C10_index_keys : forall vs,
+  length (index_entries 0 vs) = length vs /\
+  (forall i v, nth_error vs i = Some v ->
+     nth_error (index_entries 0 vs) i = Some (compact_encode (N.of_nat i), v)) /\
+  (N.of_nat (length vs) < 2 ^ 536 ->
+   forall i j ki vi kj vj, nth_error (index_entries 0 vs) i = Some (ki, vi) ->
+     nth_error (index_entries 0 vs) j = Some (kj, vj) -> i <> j -> ki <> kj).
+Proof.
+  intros vs. split; [exact (index_entries_length 0 vs)|]. split.
+  - intros i v E. exact (index_entries_nth vs 0 i v E).
+  - intros S i j ki vi kj vj. exact (index_entries_keys_distinct vs i j ki vi kj vj S).
+Qed.
+Print Assumptions C10_index_keys.
+
+(* the Go length decoder (decodeUint) agrees with the Compact<u32> specification decoder wherever the
+   latter succeeds, and rejects big-integer-mode prefixes with a payload other than 4 or 8 bytes *)
+Theorem C10_length_decoder : forall d,
+  (forall n r, dec_len d = Some (n, r) -> dec_len_go d = Some (n, r) /\ n < two32) /\
+  (forall b0 t, d = b0 :: t -> b2n b0 mod 4 = 3 -> b2n b0 / 4 <> 0 -> b2n b0 / 4 <> 4 -> dec_len_go d = None).
+Proof.
+  intros d. split; [exact (dec_len_go_agrees d)|].
+  intros b0 t -> M K0 K4. unfold dec_len_go. rewrite M. cbn [N.eqb Pos.eqb andb].
+  destruct (N.eqb_spec (b2n b0 / 4) 0); [contradiction|].
+  destruct (N.eqb_spec (b2n b0 / 4) 4); [contradiction|]. reflexivity.
+Qed.
+Print Assumptions C10_length_decoder.
+
+(* non-vacuity: last value wins, empty value kept; 5-byte big-integer count rejected by Go and by the
+   specification; a value declaring 2^56 bytes rejected by both (no zero filling) *)
+Example C10_audit_nonvacuous :
+  last_value [([n2b 1], [n2b 170]); ([n2b 1; n2b 2], []); ([n2b 1], [n2b 187])] [n2b 1] = Some [n2b 187] /\
+  last_value [([n2b 1], [n2b 170]); ([n2b 1; n2b 2], []); ([n2b 1], [n2b 187])] [n2b 1; n2b 2] = Some [] /\
+  dec_entries_go (map n2b [7; 1; 0; 0; 0; 0; 4; 1; 4; 2]) = None /\
+  dec_entries (map n2b [7; 1; 0; 0; 0; 0; 4; 1; 4; 2]) = None /\
+  dec_values_go (map n2b [4; 19; 0; 0; 0; 0; 0; 0; 0; 1; 17]) = None /\
+  guard_values_overrun (map n2b [4; 19; 0; 0; 0; 0; 0; 0; 0; 1; 17]) = false /\
+  guard_values_overrun (map n2b [4; 8; 2]) = true.
 Proof. vm_compute. repeat split; reflexivity. Qed.
